@@ -187,9 +187,18 @@ pub fn chk_result(cx: &Ctx) -> Vec<Viol> {
                 vs.push(v("minmax", format!("{} returned {:x?}, sequential answer {:x?}", ok.name(), got.map(|g| g.0), exp)));
             }
         }
-        (Term::MinBy | Term::MaxBy | Term::MinByKey | Term::MaxByKey, TermResult::Red(got)) => {
+        (Term::MinBy | Term::MaxBy | Term::MinByKey | Term::MaxByKey | Term::MinTie | Term::MaxTie, TermResult::Red(got)) => {
             let keys = out.iter().map(|e| e.slot / 2);
-            let ek = if matches!(ok, Term::MinBy | Term::MinByKey) { keys.min() } else { keys.max() };
+            let ek = if matches!(ok, Term::MinBy | Term::MinByKey | Term::MinTie) { keys.min() } else { keys.max() };
+            // min() / max() in sequential mode are exactly Iterator::min / Iterator::max: the first minimal, the last
+            // maximal element (the by-key wrappers are judged with C03's wording in every mode)
+            if let (true, Some(k), Term::MinTie | Term::MaxTie) = (cx.seq, ek, ok) {
+                let mut ext = out.iter().filter(|e| e.slot / 2 == k).map(|e| e.id);
+                let want = if ok == Term::MinTie { ext.next() } else { ext.last() };
+                if got.map(|g| g.0) != want {
+                    vs.push(v("minmax-tie", format!("{} in sequential mode returned {:x?}; Iterator::{} returns {:x?} ({} of the equal elements)", ok.name(), got.map(|g| g.0), if ok == Term::MinTie { "min" } else { "max" }, want, if ok == Term::MinTie { "the first" } else { "the last" })));
+                }
+            }
             match (got, ek) {
                 (None, None) => {}
                 (Some(g), Some(k)) => {
@@ -720,7 +729,7 @@ pub fn chk_lazy(cx: &Ctx) -> Vec<Viol> {
     let mut prev: Option<&hcore::settings::Probe> = None;
     for p in &cx.obs.probes {
         let (c0, s0, w0, t0) = match prev {
-            None => (0, 0, 0, p.toks_created),
+            None => (0, 0, cx.obs.base_spawns, p.toks_created),
             Some(q) => q.after,
         };
         let (dc, ds, dw, dt) = (p.calls - c0, p.src_consumed - s0, p.spawned - w0, p.toks_created - t0);
@@ -747,7 +756,7 @@ pub fn chk_lazy(cx: &Ctx) -> Vec<Viol> {
         if cx.obs.spawns > last.spawned {
             vs.push(v("terminal-params", format!("the parameters in effect at the terminal are sequential but it spawned {} thread(s)", cx.obs.spawns - last.spawned)));
         }
-        if let Some(c) = cx.obs.calls.iter().skip(last.calls as usize).find(|c| c.thread != 0) {
+        if let Some(c) = cx.obs.calls.iter().skip(last.calls as usize).find(|c| c.thread != cx.obs.caller) {
             vs.push(v("terminal-params", format!("the parameters in effect at the terminal are sequential but the stage-{} closure ran on thread {}", c.stage, c.thread)));
         }
     }
